@@ -517,6 +517,56 @@ def source_order_section(ctx):
         compare_masters(ctx, case, full)
 
 
+def layer_names_section(ctx):
+    """the font-LIST entry point with layerNames (no designspace): compileInterpolatableTTFs([regular, regular, bold],
+    layerNames=[None, "Medium", None]) where the sparse layer holds a composite whose bases it lacks (and, in turn, one plain
+    glyph): the sparse master keeps the composite with the same component list as the full masters -- against empty placeholder
+    bases -- and every master is compatible with the first full one"""
+    import ufo2ft
+    rng = ctx.subrng("layer-names")
+    box = lambda x0, x1, y1: [[(Fr(x0), Fr(0), "line"), (Fr(x1), Fr(0), "line"), (Fr(x1), Fr(y1), "line"), (Fr(x0), Fr(y1), "line")]]
+    one = (Fr(1), Fr(0), Fr(0), Fr(1))
+    for i in range(ctx.budget(4, 12)):
+        lib = ["ufoLib2", "defcon"][i % 2]
+        pos = [1, 0, 2][(i // 2) % 3]               # where the sparse layer stands in the list
+
+        def glyphs(k, names):
+            d = 40 * k
+            gl = [{"name": "A", "unicodes": [0x41], "width": Fr(500 + d), "contours": box(50, 400 + d, 500), "components": [], "anchors": []},
+                  {"name": "acutecomb", "unicodes": [0x301], "width": Fr(0), "contours": box(-40, 40 + d // 4, 60), "components": [], "anchors": []},
+                  {"name": "Aacute", "unicodes": [0xC1], "width": Fr(500 + d), "contours": [], "anchors": [],
+                   "components": [("A", one + (Fr(0), Fr(0))), ("acutecomb", one + (Fr(200 + d), Fr(520)))]},
+                  {"name": "B", "unicodes": [0x42], "width": Fr(520 + d), "contours": box(60, 380 + d, 480), "components": [], "anchors": []}]
+            return [g for g in gl if g["name"] in names]
+        full = lambda k: {"glyphs": glyphs(k, ("A", "acutecomb", "Aacute", "B")), "glyphOrder": ["A", "acutecomb", "Aacute", "B"],
+                          "info": {"familyName": "Fam", "styleName": "M%d" % k, "unitsPerEm": 1000, "ascender": 800, "descender": -200}}
+        case = {"function": "compileInterpolatableTTFs", "layerNames": "sparse layer 'Medium' at position %d of the list" % pos, "lib": lib,
+                "font": jsonable(full(0)), "sparse_layer_glyphs": ["Aacute", "B"]}
+        ctx.count(); ctx.klass("font list + layerNames: sparse layer at %d" % pos); ctx.nontriv(("ln", i, ctx.scale))
+        try:
+            reg, bold = build_font(full(0), lib), build_font(full(2), lib)
+            layer = reg.newLayer("Medium")
+            tmp = build_font({"glyphs": glyphs(1, ("A", "acutecomb", "Aacute", "B"))}, lib)
+            for n in ("Aacute", "B"):
+                g = layer.newGlyph(n); g.width = tmp[n].width; tmp[n].drawPoints(g.getPointPen())
+            srcs, lns = [reg, bold], [None, None]
+            srcs.insert(pos, reg); lns.insert(pos, "Medium")
+            outs = list(ufo2ft.compileInterpolatableTTFs(srcs, layerNames=lns, useProductionNames=False))
+        except Exception as e:
+            ctx.spec_failure(case, "compileInterpolatableTTFs raised %s: %s\n%s" % (type(e).__name__, e, traceback.format_exc()[-1000:]))
+            continue
+        fulls = [tt for k, tt in enumerate(outs) if k != pos]
+        sparse = outs[pos]
+        want = tt_structure(fulls[0], "Aacute")
+        got = tt_structure(sparse, "Aacute") if "Aacute" in sparse.getGlyphOrder() else None
+        if got is None or got[0] != "composite" or [c[0] for c in got[1]] != [c[0] for c in want[1]]:
+            ctx.spec_failure(dict(case, sparse_master=repr(got)[:200], full_master=repr(want)[:200]),
+                             "the sparse master's 'Aacute' is %r, the full masters hold %r" % (got and got[0], want[0]))
+        if tt_structure(sparse, "B") != tt_structure(fulls[0], "B"):
+            ctx.spec_failure(case, "the sparse master's own plain glyph 'B' is not compatible with the full masters'")
+        compare_masters(ctx, case, fulls)
+
+
 def per_master_filter_section(ctx):
     """masters whose libs name the SAME filter (one that has an interpolatable form) with DIFFERENT include / exclude lists:
     master 0 asks for composite B only, master 1 for B and C.  Whatever is decomposed must be decomposed in every master."""
@@ -567,6 +617,7 @@ def explore(ctx):
     notdef_family_section(ctx)
     two_sparse_layers_section(ctx)
     source_order_section(ctx)
+    layer_names_section(ctx)
     filter_list_length_section(ctx)
     placeholders_section(ctx)
     nonmatching_section(ctx)
